@@ -31,7 +31,7 @@ REACH = [("yamlpath/yamlpath.py", "__eq__,__add__,append,pop", "__eq__/__add__/a
          ("yamlpath/path/searchkeywordterms.py", "parameters", "SearchKeywordTerms.parameters")]
 EXHAUSTIVE_NOTE = "all segment sequences of length <=2 over the reduced segment list (thorough tier)"
 SIZES = {"quick": dict(grid_stride=6, rnd=60000), "thorough": dict(grid_stride=1, rnd=1500000)}
-REQUIRED_COUNTERS = ["parse_checked", "canonical_checked", "eq_checked", "append_pop_checked"]
+REQUIRED_COUNTERS = ["object_reuse_checked", "parse_checked", "canonical_checked", "eq_checked", "append_pop_checked"]
 
 METHOD = {"=": "EQUALS", "^": "STARTS_WITH", "$": "ENDS_WITH", "%": "CONTAINS", ">": "GREATER_THAN",
           "<": "LESS_THAN", ">=": "GREATER_THAN_OR_EQUAL", "<=": "LESS_THAN_OR_EQUAL", "=~": "REGEX"}
@@ -339,7 +339,20 @@ def check_ast(ctx, rng, segs, do_eq=True):
                 base = YAMLPath(base_text)
                 before = canon(base.escaped, base.unescaped)
                 work = YAMLPath(base_text)
+                used_first = rng.random() < 0.5
+                if used_first:
+                    # the object has been *used* (parsed) before it is changed: every view of it must follow the change
+                    _ = (len(work), list(work.escaped), list(work.unescaped), str(work))
+                    ctx.counters["object_reuse_checked"] = ctx.counters.get("object_reuse_checked", 0) + 1
                 work.append(segtext)
+                fresh = YAMLPath(work.original)
+                if (canon(work.escaped, work.unescaped) != canon(fresh.escaped, fresh.unescaped) or len(work) != len(fresh)
+                        or str(work) != str(fresh)):
+                    ctx.violation("object-state-stale/append", {"case": case, "summary": "after append(%r) to a %s path object: escaped %r, "
+                                  "len %d, str %r ; a fresh parse of its text %r gives %r" % (
+                                      segtext, "used" if used_first else "fresh", canon(work.escaped, work.unescaped)[-2:], len(work),
+                                      str(work), work.original, canon(fresh.escaped, fresh.unescaped)[-2:])})
+                    continue
                 if canon(work.escaped, work.unescaped) != exp:
                     continue       # append of this text is not this one segment here: not judged
                 want_pop = canon([work.unescaped[-1]])
@@ -355,6 +368,14 @@ def check_ast(ctx, rng, segs, do_eq=True):
                 elif not (work == base):
                     ctx.violation("append-pop-not-equal/%s" % last[0], {
                         "case": case, "summary": "%r != %r after append+pop" % (work.original, base_text)})
+                else:
+                    # re-pointing a used object at another text
+                    other = texts["."] if sep == "." else texts["/"]
+                    work.original = other
+                    fresh = YAMLPath(other)
+                    if canon(work.escaped, work.unescaped) != canon(fresh.escaped, fresh.unescaped) or len(work) != len(fresh):
+                        ctx.violation("object-state-stale/original-setter", {"case": case, "summary": "after .original = %r the object "
+                                      "still answers %r" % (other, canon(work.escaped, work.unescaped)[-2:])})
             except YAMLPathException:
                 ctx.count("append_pop_yamlpath_error")
             except ValueError:
